@@ -144,7 +144,7 @@ def try_replay(e, mod, target, kind, ob, seed):
     names = list(e.input_vars)
 
     def run(decoded, via):
-        ctx = rp.Ctx()
+        ctx = rp.Ctx(e)
         args = {}
         for nme in names:
             if nme in con.ghost:
